@@ -110,11 +110,37 @@ def coarse(conf, seed, k):
     return p
 
 
+ACROSS = [(ratio, amp, elong, off) for ratio in (3.0, 4.0) for amp in (15.0, 60.0) for elong in (False, True)
+          for off in (0.0, 10.0)]
+
+
+def across(conf, seed, k):
+    """an elongated source lying ACROSS the beam's major axis (for a round beam: East-West, along a pixel axis) at
+    modest peak / rms: the fit has to let its second width grow to the source's length within an island that is
+    much longer than high."""
+    p = continuous(dict(conf, beam="circ"), seed)
+    ratio, amp, elong, off = ACROSS[k % len(ACROSS)]
+    sc = p["scale"]
+    beam = (6.0 * sc, 3.0 * sc, 0.0) if elong else (3.5 * sc, 3.5 * sc, 0.0)
+    b = beam[0] * 1.05
+    a = b * ratio
+    p.update(beam=beam, a=a, b=b, pa=((90.0 + off + 90.0) % 180.0) - 90.0, kind="extended", amp=amp * (-1 if k % 3 == 0 else 1),
+             size=(160 if a / sc > 30 else 96))
+    p["x0"] = p["size"] // 2 + (p["x0"] - int(p["x0"]))
+    p["y0"] = p["size"] // 2 + (p["y0"] - int(p["y0"]))
+    return p
+
+
 def observe(args):
     rid, conf, seed, workdir, use_cli = args
     common.quiet_logging()
     from astropy.wcs import WCS
-    p = coarse(conf, seed, int(rid.split("/")[1])) if rid.startswith("coarse/") else continuous(conf, seed)
+    if rid.startswith("coarse/"):
+        p = coarse(conf, seed, int(rid.split("/")[1]))
+    elif rid.startswith("across/"):
+        p = across(conf, seed, int(rid.split("/")[1]))
+    else:
+        p = continuous(conf, seed)
     rec = {"id": rid, "conf": conf, "seed": seed, "err": "", "noise": bool(conf["noise"]), "n_components": -1,
            "dpos_1e4px": 0, "peak_ppm": 0, "a_ppm": 0, "b_ppm": 0, "dpa_udeg": 0, "int_ppm": 0,
            "ratio_1e3": int(round(1000 * p["a"] / p["b"])), "z_milli": [], "kind": p["kind"], "cli": bool(use_cli), "phase": p["phase"]}
@@ -270,6 +296,8 @@ def run(ctx):
     cc = [c for c in forced if c["beam"] == "circ" and not c["noise"]]
     for k in range(len(COARSE)):
         jobs.append(("coarse/%d" % k, cc[(k * 7) % len(cc)], ctx.seed * 1000003 + 900000 + k, ctx.workdir, False))
+    for k in range(len(ACROSS)):
+        jobs.append(("across/%d" % k, cc[(k * 11 + 3) % len(cc)], ctx.seed * 1000003 + 950000 + k, ctx.workdir, False))
     # (not multiprocessing.Pool: its workers are daemonic and BANE needs child processes)
     from concurrent.futures import ProcessPoolExecutor
     with ProcessPoolExecutor(max_workers=16) as pool:
